@@ -136,7 +136,7 @@ static int runChild(const std::vector<Value>& files, size_t from, size_t to, con
     for (size_t k = from; k < to; k++)
     {
       SH->cur = (int)k;
-      struct itimerval tv = {{0, 0}, {10, 0}};
+      struct itimerval tv = {{0, 0}, {4, 0}};
       setitimer(ITIMER_REAL, &tv, nullptr);
       struct timeval t0, t1;
       gettimeofday(&t0, nullptr);
